@@ -84,6 +84,14 @@ CHECKS["C03"] = dict(
     technique=SYMEX, design_ref="DESIGN.md section 3, C03",
 )
 
+CHECKS["C20"] = dict(
+    engine="symex", category="other",
+    text="Bounded symbolic verification: (1) the real clean_text on all step lists of length <=3 over known names, an unknown name and callables, with abstract cleaners and symbolic text emptiness (sequential application; unknown step raises ValueError); (2) the three real text cleaners on every string of <=8 (quick) / <=12 (thorough) symbolic code points, their re.sub executed by a priority-exact symbolic regex matcher: idempotent, exactly the runs replaced, all other characters kept in order - against a character-level specification independent of the code's patterns.",
+    note="Outside: longer strings; the html cleaner clause (lxml is C code: not applicable to this technique, stated in the evidence). Trusted: the symbolic matcher (vf/symre.py; class tables from the runtime; validated against the real regex engine in C02's self-test), z3.",
+    technique="symbolic execution of the Python source over bounded symbolic character arrays with a symbolic regex matcher; z3 decides each character-class test",
+    design_ref="DESIGN.md section 3, C20",
+)
+
 PENDING = {}
 
 NOT_APPLICABLE = {
